@@ -59,7 +59,7 @@ ADV = {"g": ["g", "g1", "g_", "gg", "g1a", "g-1", "g.1", "G2", "g11"], "r": ["r"
 
 def layout_form(prefix, tsuf, rsuf, style, target_first, ref_kind, with_cells=True):
     """common prefix containers, then two branches: target chain ending in question tgt, referrer chain ending in the referrer."""
-    names = {"g": iter((PLAIN if style == "plain" else ADV)["g"]), "r": iter((PLAIN if style == "plain" else ADV)["r"])}
+    names = {"g": iter((ADV if style == "adv" else PLAIN)["g"]), "r": iter((ADV if style == "adv" else PLAIN)["r"])}
 
     def sec(k):
         nm = next(names[k])
@@ -72,7 +72,7 @@ def layout_form(prefix, tsuf, rsuf, style, target_first, ref_kind, with_cells=Tr
         cur.append(s)
         cur = s.children
     base = cur
-    tname = "tgt" if style == "plain" else "t"
+    tname = {"plain": "tgt", "adv": "t", "case": "Tgt"}[style]
     tq = Row("q", "integer", tname, {"label": "target"})
     tb = tq
     for k in reversed(tsuf):
@@ -110,6 +110,9 @@ def layout_form(prefix, tsuf, rsuf, style, target_first, ref_kind, with_cells=Tr
         base.extend([tb, rb])
     else:
         base.extend([rb, tb])
+    if style == "case":
+        # a decoy whose name differs from the target's only by case, elsewhere in the form: no reference may land on it
+        f.survey.append(Row("group", "begin group", "decoy_zone", {"label": "D"}, [Row("q", "integer", tname.lower(), {"label": "decoy"})]))
     f.choices = {lst: [{"name": "a", "label": "A", "cf": "1"}, {"name": "b", "label": "B", "cf": "2"}]}
     f.settings = {"namespaces": 'kb="http://kobotoolbox.org/xforms"', "form_id": "lay"}
     if ref_kind == "calc":
@@ -523,7 +526,7 @@ def run_shard(ctx):
     for prefix in ch:
         for tsuf in ch:
             for rsuf in ch:
-                for style in ("plain", "adv"):
+                for style in ("plain", "adv", "case"):
                     for tf in (True, False):
                         for rk in ("question", "calc", "group", "repeat", "selrep", "selrep-nofilter"):
                             n += 1
